@@ -111,7 +111,7 @@ def run(ctx):
         ctx.cov["distinct_nontrivial"] = len(nt)
     # 3. design level: Codecs.tla against the closed-form reference on small domains
     out, stats = tlc.run_tlc("MC_Codecs.tla", "MC_Codecs.cfg", workers=8, scratch=ctx.scratch,
-                             env={"MC_TIER": ctx.tier})
+                             env={"MC_TIER": ctx.tier}, extra=("-maxSetSize", "10000000"))
     if "Error:" in out or "Invariant" in out and "violated" in out:
         raise tlc.MachineryError("MC_Codecs: design-level check failed:\n" + out[-2000:])
     ctx.add_tlc(stats)
